@@ -299,6 +299,95 @@ theorem inv_empty {p : Pool} (e : Env) (ho : 0 < p.objSize) (hc : p.bitmapCount 
   rintro ⟨b, hb', _⟩
   simp [hb] at hb'
 
+/-- `mem_pool_free` of a live object succeeds (no assertion) and keeps the invariant with the object removed -/
+theorem free_step {p : Pool} {e : Env} {live : List (Nat × Nat)} (h : Inv p e live) (h2 : 2 ≤ p.objSize) {a : Nat × Nat}
+    (ha : a ∈ live) : ∃ p', free p a.1 a.2 = .ok p' ∧ Inv p' e (live.erase a) := by
+  obtain ⟨b0, hb0, k0, hk0, hbit, rfl⟩ := (h.live_iff _).mp ha
+  have hwf := h.wf b0 hb0
+  have hmul : (k0 + 1) * p.objSize ≤ 32 * p.bitmapCount * p.objSize := Nat.mul_le_mul_right _ (by omega)
+  rw [Nat.add_mul] at hmul
+  have hlim := hwf.lim
+  have hrange : b0.dataOff ≤ b0.dataOff + k0 * p.objSize ∧ b0.dataOff + k0 * p.objSize < b0.limitOff := by omega
+  obtain ⟨⟨pre, b, post⟩, hloc⟩ := locate_of_mem (bid := b0.id) (off := b0.dataOff + k0 * p.objSize) ⟨b0, hb0, rfl, hrange⟩
+  obtain ⟨hdec, hid, _, _⟩ := locate_some hloc
+  have hbm : b ∈ p.blocks := by rw [hdec]; simp
+  have := eq_of_id_eq h.ids hbm hb0 hid
+  subst this
+  have hidx : b.dataOff + k0 * p.objSize - b.dataOff = k0 * p.objSize := by omega
+  have hlen := hwf.len
+  have hi : k0 / 32 < b.bitmap.length := by omega
+  have hj : k0 % 32 < 32 := Nat.mod_lt _ (by decide)
+  have hk' : 32 * (k0 / 32) + k0 % 32 = k0 := by omega
+  have hle := clearBits_le b.bitmap
+  have hfree := hwf.free
+  have hcnt := clearBits_clearBit hi hj (by rw [hk']; exact hbit)
+  refine ⟨{ p with blocks := pre ++ { b with bitmap := clearBit b.bitmap (k0 / 32) (k0 % 32), objFree := w64 (b.objFree + 1) } :: post }, ?_, ?_⟩
+  · simp only [free, slotAddr, hloc, hidx, Nat.mul_mod_left, ne_eq, not_true_eq_false, if_false,
+      Nat.mul_div_cancel _ h.osz]
+    have : (b.bitmap.getD (k0 / 32) 0).getLsbD (k0 % 32) = true := hbit
+    simp only [this, Bool.true_eq_false, if_false]
+  · have hcnt' := h.cnt
+    have := inv_clear (b' := { b with bitmap := clearBit b.bitmap (k0 / 32) (k0 % 32), objFree := w64 (b.objFree + 1) })
+      h hdec rfl rfl hk0
+      ⟨by simp [clearBit_length, hlen], by simp only [w64_small (show b.objFree + 1 < 18446744073709551616 by omega)]; omega,
+        hwf.lim, hwf.hdr, hwf.align⟩
+      (by intro k'; simp only [bitAt_clearBit hi hj, hk']; by_cases hkk : k' = k0 <;> simp [hkk]) hbit
+    exact this
+
+theorem allocate_objSize : ∀ (fuel : Nat) (p : Pool) (e : Env), (allocate fuel p e).2.1.objSize = p.objSize
+  | 0, p, e => rfl
+  | fuel + 1, p, e => by
+    unfold allocate
+    split
+    · rfl
+    · rw [allocate_objSize fuel]
+    · split
+      · rfl
+      · rfl
+      · simp only []
+        split
+        · rfl
+        · rw [allocate_objSize fuel]
+
+theorem free_objSize {p p' : Pool} {bid off : Nat} (h : free p bid off = .ok p') : p'.objSize = p.objSize := by
+  unfold free at h
+  split at h
+  · cases h
+  · simp only [] at h
+    split at h
+    · cases h
+    · split at h
+      · cases h
+      · cases h; rfl
+
+/-- Every history of `mem_pool_allocate` / `mem_pool_free` calls that respects the API (free only what was handed out and not yet
+freed), from any consistent state - in particular from a fresh pool (`inv_empty`) -, keeps the pool consistent with the list of
+live objects: (a)-(d) (`alloc_in_bounds`, `live_disjoint`, `bitmap_exact`, `alloc_fresh`) hold at every point of it, and no
+`mem_pool_free` of a live object runs into an assertion. -/
+theorem history_inv : ∀ (ops : List Op) {p p' : Pool} {e e' : Env} {live live' : List (Nat × Nat)}, Inv p e live → 2 ≤ p.objSize →
+    runOps p e live ops = some (p', e', live') → Inv p' e' live'
+  | [], p, p', e, e', live, live', h, _, hr => by
+    simp only [runOps, Option.some.injEq, Prod.mk.injEq] at hr
+    obtain ⟨rfl, rfl, rfl⟩ := hr; exact h
+  | .alloc :: ops, p, p', e, e', live, live', h, h2, hr => by
+    unfold runOps at hr
+    have hs := alloc_step (allocFuel p e) h
+    have ho := allocate_objSize (allocFuel p e) p e
+    revert hs ho hr
+    generalize allocate (allocFuel p e) p e = r
+    obtain ⟨r1, p1, e1⟩ := r
+    cases r1 with
+    | ptr bid off => exact fun hr hs ho => history_inv ops hs.1 (by simp at ho; omega) hr
+    | null => exact fun hr hs ho => history_inv ops hs.1 (by simp at ho; omega) hr
+    | fuel => exact fun hr _ _ => by simp at hr
+  | .free a :: ops, p, p', e, e', live, live', h, h2, hr => by
+    unfold runOps at hr
+    by_cases ha : a ∈ live
+    · obtain ⟨p1, hf, hinv⟩ := free_step h h2 ha
+      simp only [ha, if_true, hf] at hr
+      exact history_inv ops hinv (by rw [free_objSize hf]; exact h2) hr
+    · simp [ha] at hr
+
 /-! ### instances (the hypotheses are satisfiable, the functions compute) -/
 
 /-- `mem_pool_create(33)` as the real code answers it: obj_size 40, 50 bitmap words -/
@@ -321,6 +410,8 @@ example : (match allocate 3 exPool exEnv with
       | .ok p2 => (match free p2 0 272 with | .error x => some x | .ok _ => none, match free p2 1 272 with | .error x => some x | .ok _ => none,
                    match free p2 0 273 with | .error x => some x | .ok _ => none)
       | .error _ => (none, none, none)) = (some .notAllocated, some .noBlock, some .misaligned) := by decide
+/-- a history that respects the API runs to its end (so `history_inv` is not vacuous): two objects, the first freed, handed out again -/
+example : (runOps exPool exEnv [] [.alloc, .alloc, .free (0, 272), .alloc, .free (0, 312)]).map (fun r => r.2.2) = some [(0, 272)] := by decide
 /-- an mmap failure: NULL, pool unchanged -/
 example : allocate 3 exPool ⟨[none], 0⟩ = (.null, exPool, ⟨[], 0⟩) := by decide
 
